@@ -314,6 +314,8 @@ def main(prop, tier="quick", seed=0, jobs=None):
     for oid, o in sorted(obl.items()):
         if is_owned(oid):
             print(f"   {oid:55s} checked={o['checked']:6d} proved={o['proved']:6d} failed={o['failed']:4d} unknown={o['unknown']}")
+    slow = sorted(results, key=lambda r: -r.get("wall_s", 0))[:3]
+    print("   slowest tasks: " + "; ".join(f"{r['task']} {r['shape']} {r.get('wall_s', 0):.0f}s" for r in slow))
     print(f"   model-library cross-check: {w_ok} witness inputs of proved paths re-run on the real numpy/scipy agree, {w_mis} mismatch, {w_skip} skipped")
     for d in w_detail[:6]:
         if "mismatch" in d:
